@@ -16,6 +16,7 @@ import (
 
 	"github.com/sourcenetwork/immutable"
 
+	acpTypes "github.com/sourcenetwork/defradb/acp/types"
 	"github.com/sourcenetwork/defradb/client"
 	"github.com/sourcenetwork/defradb/client/request"
 	"github.com/sourcenetwork/defradb/errors"
@@ -23,6 +24,7 @@ import (
 	coreblock "github.com/sourcenetwork/defradb/internal/core/block"
 	"github.com/sourcenetwork/defradb/internal/datastore"
 	"github.com/sourcenetwork/defradb/internal/db/fetcher"
+	"github.com/sourcenetwork/defradb/internal/db/permission"
 	"github.com/sourcenetwork/defradb/internal/keys"
 	"github.com/sourcenetwork/defradb/internal/planner/mapper"
 )
@@ -35,6 +37,9 @@ type dagScanNode struct {
 
 	depthVisited uint64
 	visitedNodes map[string]bool
+
+	// docAccess holds the result of the read permission check, by docID.
+	docAccess map[string]bool
 
 	queuedCids []*cid.Cid
 
@@ -235,6 +240,17 @@ func (n *dagScanNode) Next() (bool, error) {
 		return false, err
 	}
 
+	hasAccess, err := n.hasReadAccess(dagBlock)
+	if err != nil {
+		return false, err
+	}
+	if !hasAccess {
+		// The commits of a document the requester can not read are skipped,
+		// as if the document did not exist.
+		n.visitedNodes[currentCid.String()] = true
+		return n.Next()
+	}
+
 	if n.commitSelect.FieldName.HasValue() {
 		if n.commitSelect.FieldName.Value() == request.CompositeFieldName {
 			if dagBlock.Delta.IsComposite() {
@@ -298,6 +314,51 @@ func (n *dagScanNode) Next() (bool, error) {
 
 	n.currentValue = currentValue
 	return true, nil
+}
+
+// hasReadAccess returns true if the requester is allowed to read the document the given block belongs to.
+func (n *dagScanNode) hasReadAccess(block *coreblock.Block) (bool, error) {
+	docID := string(block.Delta.GetDocID())
+	if !n.planner.documentACP.HasValue() || docID == "" {
+		return true, nil
+	}
+
+	if hasAccess, ok := n.docAccess[docID]; ok {
+		return hasAccess, nil
+	}
+
+	schemaVersionID := block.Delta.GetSchemaVersionID()
+	cols, err := n.planner.db.GetCollections(
+		n.planner.ctx,
+		client.CollectionFetchOptions{
+			IncludeInactive: immutable.Some(true),
+			VersionID:       immutable.Some(schemaVersionID),
+		},
+	)
+	if err != nil {
+		return false, err
+	}
+	if len(cols) == 0 {
+		return false, client.NewErrCollectionNotFoundForCollectionVersion(schemaVersionID)
+	}
+
+	hasAccess, err := permission.CheckAccessOfDocOnCollectionWithACP(
+		n.planner.ctx,
+		n.planner.identity,
+		n.planner.documentACP.Value(),
+		cols[0],
+		acpTypes.DocumentReadPerm,
+		docID,
+	)
+	if err != nil {
+		return false, err
+	}
+
+	if n.docAccess == nil {
+		n.docAccess = make(map[string]bool)
+	}
+	n.docAccess[docID] = hasAccess
+	return hasAccess, nil
 }
 
 //			   -> D1 -> E1 -> F1
